@@ -8,7 +8,9 @@ compartment identity dv = I*dt/C; t_max padding/truncation; data_stimulate == st
 Type B cases (HH/K + three interleaved synapse types, unique-value tagging of every state): column 0
 identifies which row each recording really reads (compartment states, channel currents, synaptic
 states and currents); clamps hold their sample at every column >= 1; repeated clamps; data_clamp ==
-clamp.  Supplementary: step_current shape, checkify index sanitizer (thomas backend).
+clamp.  Type G cases (one HH/K cell, 1-2 gates clamped with time-varying samples on 1-2 compartments,
+optional stimulus): the whole matrix of v / i_HH / gates against the reference simulator R3, which pins the TIME STEP at
+which a clamp sample enters the gate update and the membrane current.  Supplementary: step_current shape, checkify index sanitizer (thomas backend).
 """
 import numpy as np
 
@@ -29,8 +31,8 @@ MECHANISMS = ["jaxley.modules.base:Module.record", "jaxley.modules.base:Module._
               "jaxley.modules.base:Module._data_external_input", "jaxley.integrate:add_stimuli", "jaxley.integrate:add_clamps",
               "jaxley.stimulus:step_current", "jaxley.stimulus:datapoint_to_step_currents", "jaxley.modules.base:Module.step"]
 MECHANISMS_REQUIRED = ["jaxley.modules.base:Module.record", "jaxley.modules.base:Module._external_input", "jaxley.modules.base:Module._get_external_input"]
-REQUIRED = {"quick": {"matrix_ref": 40, "charge_target": 15, "tmax": 30, "data_equiv": 30, "row_identity": 100, "clamp_hold": 12},
-            "thorough": {"matrix_ref": 567, "charge_target": 140, "tmax": 567, "data_equiv": 660, "row_identity": 2412, "clamp_hold": 272}}
+REQUIRED = {"quick": {"matrix_ref": 40, "charge_target": 15, "tmax": 30, "data_equiv": 30, "row_identity": 100, "clamp_hold": 12, "clamp_timing": 8},
+            "thorough": {"matrix_ref": 567, "charge_target": 140, "tmax": 567, "data_equiv": 660, "row_identity": 2412, "clamp_hold": 272, "clamp_timing": 90}}
 BACKENDS = ["jaxley.stone", "jaxley.thomas", "jax.sparse"]
 SYN = ["IonotropicSynapse", "TestSynapse", "TanhRateSynapse"]
 
@@ -102,10 +104,26 @@ def cases(seed, tier):
         rng = trees.rng_for(seed, PID, 2 * 10**5 + k)
         out.append({"type": "S", "delay": float(rng.uniform(0, 3)), "dur": float(rng.uniform(0.1, 4)), "amp": float(rng.uniform(0.1, 2)),
                     "dt": float(rng.choice([0.025, 0.1, 0.3, 0.01])), "tmax": float(rng.uniform(4, 10)), "offset": float(rng.choice([0.0, -0.3]))})
+    for k in range(10 if tier == "quick" else 240):
+        # G: time-varying GATE clamps on one cell; the whole voltage / current / gate matrix against the reference simulator R3
+        rng = trees.rng_for(seed, PID, 3 * 10**5 + k)
+        st = trees.random_structure(rng, kind="cell", max_branches=3, nmax=3)
+        n = trees.total_comps(st)
+        T = int(rng.integers(4, 8))
+        gates = ["HH_m", "HH_h", "HH_n"] + (["K_n"] if k % 2 else [])
+        clamps = []
+        for g in [gates[i] for i in rng.choice(len(gates), int(rng.integers(1, 3)), replace=False)]:
+            rows = _rows(rng, n, 2)
+            clamps.append({"state": g, "rows": rows, "w": np.round(rng.uniform(0.02, 0.98, (len(rows), T)), 6).tolist()})
+        out.append({"type": "G", "struct": st, "T": T, "clamps": clamps, "with_k": bool(k % 2), "v0": np.round(rng.uniform(-80, -40, n), 4).tolist(),
+                    "stim": [int(rng.integers(0, n)), np.round(rng.uniform(-0.05, 0.1, T), 5).tolist()] if k % 3 else None,
+                    "backend": BACKENDS[k % 3], "data_clamp": bool(k % 4 == 3)})
     return out
 
 
 def run_case(case, rec):
+    if case["type"] == "G":
+        return _gateclamp(case, rec)
     if case["type"] == "A":
         return _passive(case, rec)
     if case["type"] == "B":
@@ -464,6 +482,63 @@ def _stepcurrent(case, rec):
             ok = ok and vals_ok and contiguous and onset_ok and len_ok
         rec.check("stepcurrent_shape", ok, fn=fn, shape=list(cur.shape), want_len=int(tm // dt) + 2, delay=d, dur=du, dt=dt, t_max=tm)
     rec.sig(f"S|{case['dt']}")
+
+
+def _gateclamp(case, rec):
+    import jax.numpy as jnp
+    import jaxley as jx
+    from jaxley.channels import HH, K
+    from jxmon import build
+    from jxmon.oracles import refsim
+    st = case["struct"]
+    cell = build.build_structure(st)
+    n = trees.total_comps(st)
+    cell.insert(HH())
+    if case["with_k"]:
+        cell.insert(K())
+    cell.set("v", np.asarray(case["v0"]))
+    cell.init_states()
+    dcl = None
+    for c in case["clamps"]:
+        view = cell.select(nodes=np.asarray(c["rows"]))
+        if case["data_clamp"] and c["state"] == case["clamps"][0]["state"]:  # data_clamps carry one state name
+            dcl = rec.call("clamp_timing", view.data_clamp, c["state"], jnp.asarray(c["w"]), dcl, where="data_clamp")
+        else:
+            rec.call("clamp_timing", view.clamp, c["state"], jnp.asarray(c["w"]), verbose=False, where="clamp")
+    if case["stim"]:
+        cell.select(nodes=[case["stim"][0]]).stimulate(jnp.asarray(case["stim"][1]), verbose=False)
+    recs = ["v", "i_HH", "HH_m", "HH_h", "HH_n"] + (["K_n", "i_K"] if case["with_k"] else [])
+    for s in recs:
+        cell.record(s, verbose=False)
+    dt = 0.025
+    kw = {"data_clamps": dcl} if dcl is not None else {}
+    out = np.asarray(rec.call("clamp_timing", jx.integrate, cell, delta_t=dt, voltage_solver=case["backend"], where="integrate", **kw))
+    nd = cell.nodes
+    ext = {k: np.asarray(v).T for k, v in cell.externals.items()}
+    einds = {k: [int(i) for i in np.asarray(v)] for k, v in cell.external_inds.items()}
+    if dcl is not None:
+        s, arr, inds = dcl
+        inds = [int(i) for i in inds.index.to_numpy()]
+        arr = np.atleast_2d(np.asarray(arr)).T
+        if s in ext:
+            ext[s] = np.concatenate([ext[s], arr], axis=1)
+            einds[s] = einds[s] + inds
+        else:
+            ext[s], einds[s] = arr, inds
+    model = {"cells": [{"parents": st["cells"][0]["parents"] if "cells" in st else st["parents"], "ncomp": [int(x) for x in cell.ncomp_per_branch]}],
+             "nodes": {c: nd[c].to_numpy().copy() for c in nd.columns}, "channels": [(type(c).__name__, c._name) for c in cell.channels], "edges": {},
+             "recordings": [(s, int(i)) for i, s in zip(cell.recordings["rec_index"], cell.recordings["state"])], "externals": ext, "external_inds": einds}
+    ref = refsim.run(model, out.shape[1] - 1, dt, "bwd_euler", "joint")
+    if ref.shape != out.shape:
+        rec.violated("clamp_timing", what="shape of the returned matrix", got=list(out.shape), want=list(ref.shape))
+        return
+    dev = np.abs(out - ref) / (1 + np.abs(ref))
+    r, c = np.unravel_index(int(np.argmax(dev)), dev.shape)
+    rec.check("clamp_timing", float(dev.max()) <= 1e-6, what="a gate clamp does not act at the time step the operator splitting prescribes "
+              "(clamp sample k replaces the gate AFTER the channel update of step k+1; it first enters the membrane current in step k+2)",
+              max_rel_dev=float(dev.max()), row_state=model["recordings"][r][0], row_index=model["recordings"][r][1], column=int(c),
+              got=out[r, :6].tolist(), want=ref[r, :6].tolist(), clamps=[(c_["state"], c_["rows"]) for c_ in case["clamps"]], backend=case["backend"])
+    rec.sig(f"G|{sorted(set(c_['state'] for c_ in case['clamps']))}|{case['backend']}|{case['data_clamp']}|{bool(case['stim'])}")
 
 
 def classify(case, v):
